@@ -36,6 +36,13 @@ tests; the complete `ctest` was run here for every seed before it was kept. Chec
 properties that were run on a seed out of curiosity and do not report it - e.g. C03 on the C18
 `min_element` seed - are listed as "MISSED" in the table too; only the seed's own property counts.)
 
+The rows `<id>-agentC` are a THIRD wave (each agent was told what the two earlier ones had done
+for that property and asked for different code and a different kind of trigger - the seeds are
+correspondingly more exotic). First verdicts: 14 of 20 reported by the property's own check, 6
+missed (C02, C03, C05, C10, C11, C14; four of those six were reported by the check of a neighbouring
+property: C06, C10, -, -, -, C18). All 60 seeds of the three waves are reported by the committed
+checks.
+
 What the misses taught, and what was changed:
 
 * **C05** (tie `step limit == boundary distance`): the lattice of C01 had no exact ties - start
@@ -71,6 +78,19 @@ What the misses taught, and what was changed:
   every event of the C06 and C07 alphabets had the same number of primaries. Events now carry 5, 3
   and 4 primaries, so that every history / stream assignment with two events on one state contains
   a smaller batch after a larger one.
+* **Third wave.** C02 (`CoreState::reset` no longer clears the slot statuses): the property's
+  histories had no abandoned event; every NEW bookkeeping state of the search is now also abandoned,
+  `reset_state()` is called, the slots and counters must be clean and a fresh event must satisfy a
+  fresh ledger. C03 (`LogicStack::apply_or` with an operand pending beneath the `|`): the zoo had no
+  volume of the form `A & (B | C)`; geometry g6 adds two (ball caps, framed bars). C05 (stale MSC
+  step applied to a particle that starts a step at rest): configurations with MSC AND a starved
+  secondary stack, two primaries, so that an annihilation at rest is deferred by an allocation
+  failure. C10 (infix string of a tree that still holds a constant inside a join): every tree of the
+  search is also printed after `exchange(node, True/False)`, before simplification. C11 (array
+  safety with a mis-indexed clamp): rectangular arrays with unequal cell counts 5x2x1, 2x5x1, 1x2x6
+  (the bundled ones are 3x4x2 and 2x2x1, where confusing an axis with a plane index is the identity).
+  C14 (partial re-opening of the repaired `UniformGrid::find` defect): grids whose computed last
+  point lies one ulp below the stored `back` were not in the quick lattice; added.
 """
 
 SEC63 = """### 6.3 Coverage review and strengthening (mutants under `/verif/mutants/<id>/`)
